@@ -215,7 +215,11 @@ impl Lexer {
                 "or" => Some(Lexem::Or),
                 "and" => Some(Lexem::And),
                 "not" if self.after_where => Some(Lexem::Not),
-                "order" => Some(Lexem::Order),
+                "order" => {
+                    // no search root can follow: arithmetic in sort keys is lexed as after WHERE
+                    self.after_where = true;
+                    Some(Lexem::Order)
+                }
                 "by" => Some(Lexem::By),
                 "asc" => self.next_lexem(),
                 "desc" => Some(Lexem::DescendingOrder),
